@@ -147,8 +147,21 @@ class ScenarioInterp(Interp):
             rec.unsat += 1
             return True
         t0 = time.time()
-        self.ctx.set_timeout(self.check_timeout_ms)
-        r = self.ctx.check(smt.Not(prop) if not isinstance(prop, bool) else True)
+        neg = smt.Not(prop) if not isinstance(prop, bool) else True
+        # 1. short attempt  2. counterexample probes (inputs pinned)  3. full-length attempt
+        self.ctx.set_timeout(min(self.check_timeout_ms, 4000))
+        r = self.ctx.check(neg)
+        if r == 'unknown':
+            for probe in getattr(self, 'probes', ()):
+                eqs = [self.inputs[k] == v for k, v in probe.items() if k in self.inputs]
+                if not eqs:
+                    continue
+                if self.ctx.check(z3.And(smt.toz(neg), *eqs)) == 'sat':
+                    r = 'sat'
+                    break
+        if r == 'unknown' and rec.sat == 0 and self.check_timeout_ms > 4000:
+            self.ctx.set_timeout(self.check_timeout_ms)
+            r = self.ctx.check(neg)
         self.ctx.set_timeout(self.ctx.timeout_ms)
         rec.time += time.time() - t0
         if r == 'unsat':
@@ -186,6 +199,10 @@ class ScenarioInterp(Interp):
     def outcome(self, label):
         self.result.outcomes[label] = self.result.outcomes.get(label, 0) + 1
 
+    def set_probes(self, probes):
+        """concrete input assignments tried as counterexample candidates when a check comes back unknown"""
+        self.probes = list(probes)
+
     def observe(self, key, term):
         """register an observable (evaluated in counterexample models and compared with the native replay)"""
         self.observed[key] = term
@@ -206,6 +223,7 @@ class ScenarioInterp(Interp):
                 except Exception:
                     pass
         out['_obs'] = obs
+        out['_choices'] = dict(self.choices)
         for k, v in self.inputs.items():
             try:
                 val = m.eval(v, model_completion=True)
